@@ -46,6 +46,7 @@ class Recorder:
         self.fifo = fifo
         self.projectors: list[Callable[[], dict]] = []
         self.deferred: dict[int, dict] = {}
+        self.timeout_us: dict[int, int] = {}
         self.loop = None
         self.event_steps: set[int] = set()
         self.open_calls: set[int] = set()
@@ -73,6 +74,7 @@ class Recorder:
         return len(self.contents)
 
     def meta(self, key, payload, params) -> dict:
+        self.timeout_us[self.mid(key.id_)] = int(params.execution_timeout.total_seconds() * 1e6)
         due = next_exec_us(params)
         exp = expiry_us(params)
         return {
@@ -143,7 +145,11 @@ class Recorder:
             new = tuple(proj.get(n, (0, 0, 0, 0)))
             if new != self.last_proj.get(n, (0, 0, 0, 0)):
                 info = self.callinfo.get(k, {})
-                ev = {"e": "move", "i": n, "v": list(new), "k": k, "c": info.get("c", 0)}
+                ev = {"e": "move", "i": n, "v": list(new), "k": k, "c": info.get("c", 0),
+                      # earliest instant at which an in-flight message of a dead consumer may be reclaimed
+                      "rdl": ("us", CLOCK.us + self.timeout_us.get(n, 600_000_000)) if new[3] else 0,
+                      # the same with the take time truncated to the whole second (brokers keeping whole-second in-flight clocks)
+                      "rdls": ("us", CLOCK.us - CLOCK.us % 1_000_000 + self.timeout_us.get(n, 600_000_000)) if new[3] else 0}
                 d = self.deferred.pop(n, None)
                 if d is not None and d["k"] != k:
                     self.emit(d)
@@ -208,7 +214,10 @@ class Recorder:
                     rec.end(k, "ok")
                     return r
                 finally:
-                    CURRENT_CALL.reset(tok)
+                    try:
+                        CURRENT_CALL.reset(tok)
+                    except ValueError:      # coroutine finalised from another context at loop teardown
+                        pass
 
             inner.__name__ = name
             inner._repid_signal_emitter = getattr(orig, "_repid_signal_emitter", None)
@@ -272,7 +281,10 @@ class Recorder:
                         rec.end(k, "ok")
                     return r
                 finally:
-                    CURRENT_CALL.reset(tok)
+                    try:
+                        CURRENT_CALL.reset(tok)
+                    except ValueError:      # coroutine finalised from another context at loop teardown
+                        pass
 
             inner.__name__ = name
             inner._repid_signal_emitter = getattr(orig, "_repid_signal_emitter", None)
